@@ -863,11 +863,268 @@ Section Run.
     end.
 End Run.
 
-(* Instance of the Ipv6 textual form used by the correspondence run: not yet
-   Rust-faithful for printing (cases with 16-byte NEXT_HOP are not generated
-   until it is). *)
-Definition v6_print (a : N) : list N := [].
-Definition v6_parse (s : list N) : option N := None.
+(* ------------------------------------------------------------------ *)
+(* Instance of the Ipv6Addr textual form used by the correspondence run: Display
+   as in library/core/src/net/ip_addr.rs (IPv4-mapped form, longest run of two or
+   more zero groups compressed, lower-case hex without leading zeros) and a
+   FromStr that accepts hex groups, one "::" gap and a trailing dotted quad.
+   Nothing is proved about these two functions; the theorems assume only
+   [v6_contract] (Proofs/ApiRt.v), which the run exercises. *)
+Definition hexd (d : N) : N := if d <? 10 then 48 + d else 87 + d.
+Definition hex_group (g : N) : list N :=
+  if g <? 16 then [hexd g]
+  else if g <? 256 then [hexd (g / 16); hexd (g mod 16)]
+  else if g <? 4096 then [hexd (g / 256); hexd ((g / 16) mod 16); hexd (g mod 16)]
+  else [hexd (g / 4096); hexd ((g / 256) mod 16); hexd ((g / 16) mod 16); hexd (g mod 16)].
+
+Fixpoint segments_of (k : nat) (a : N) : list N :=
+  match k with
+  | O => []
+  | S k' => segments_of k' (a / 65536) ++ [a mod 65536]
+  end.
+
+Definition COLON : N := 58.
+Fixpoint join_groups (l : list N) : list N :=
+  match l with
+  | [] => []
+  | [g] => hex_group g
+  | g :: r => hex_group g ++ COLON :: join_groups r
+  end.
+
+Fixpoint zero_span (i : nat) (l : list N) (cs cl bs bl : nat) : nat * nat :=
+  match l with
+  | [] => (bs, bl)
+  | s :: r =>
+      if s =? 0 then
+        let cs' := if Nat.eqb cl 0 then i else cs in
+        let cl' := S cl in
+        if Nat.ltb bl cl' then zero_span (S i) r cs' cl' cs' cl' else zero_span (S i) r cs' cl' bs bl
+      else zero_span (S i) r 0 0 bs bl
+  end.
+
+Definition v6_print (a : N) : list N :=
+  let segs := segments_of 8 a in
+  match segs with
+  | [0; 0; 0; 0; 0; 65535; g6; g7] => [58; 58; 102; 102; 102; 102; 58] ++ ip4_to_string (g6 * 65536 + g7)
+  | _ =>
+      let '(st, len) := zero_span 0 segs 0 0 0 0 in
+      if Nat.ltb 1 len then join_groups (firstn st segs) ++ [58; 58] ++ join_groups (skipn (st + len) segs)
+      else join_groups segs
+  end.
+
+Definition hexval (c : N) : option N :=
+  if (48 <=? c) && (c <=? 57) then Some (c - 48)
+  else if (97 <=? c) && (c <=? 102) then Some (c - 87)
+  else if (65 <=? c) && (c <=? 70) then Some (c - 55)
+  else None.
+
+Fixpoint hex_field (l : list N) (acc : N) : option N :=
+  match l with
+  | [] => Some acc
+  | c :: r => match hexval c with Some d => hex_field r (acc * 16 + d) | None => None end
+  end.
+
+(* one colon-separated field: 1..4 hex digits *)
+Definition v6_field (f : list N) : option N :=
+  match f with
+  | [] => None
+  | _ => if Nat.leb (length f) 4 then hex_field f 0 else None
+  end.
+
+(* fields -> groups; the last field may be a dotted quad (two groups) *)
+Fixpoint v6_groups (fs : list (list N)) : option (list N) :=
+  match fs with
+  | [] => Some []
+  | [f] =>
+      match v6_field f with
+      | Some g => Some [g]
+      | None => match ip4_of_string f with Some a => Some [a / 65536; a mod 65536] | None => None end
+      end
+  | f :: r =>
+      match v6_field f, v6_groups r with
+      | Some g, Some gs => Some (g :: gs)
+      | _, _ => None
+      end
+  end.
+
+Fixpoint split_gap (fs : list (list N)) : list (list N) * option (list (list N)) :=
+  match fs with
+  | [] => ([], None)
+  | [] :: r => ([], Some r)
+  | f :: r => let '(h, t) := split_gap r in (f :: h, t)
+  end.
+
+Definition groups_value (gs : list N) : N := fold_left (fun acc g => acc * 65536 + g) gs 0.
+
+Definition v6_parse (s : list N) : option N :=
+  let fs := split_on COLON s in
+  (* a leading or trailing "::" shows as two empty fields: drop the outer one *)
+  let fs1 := match fs with [] :: [] :: ((_ :: _) as r) => Some ([] :: r) | [] :: _ => None | _ => Some fs end in
+  match fs1 with
+  | None => None
+  | Some fs1 =>
+      let fs2 := match rev fs1 with
+                 | [] :: [] :: r => Some (rev ([] :: r))
+                 | [] :: _ :: _ => None
+                 | _ => Some fs1
+                 end in
+      match fs2 with
+      | None => None
+      | Some fs2 =>
+          match split_gap fs2 with
+          | (h, None) =>
+              match v6_groups h with
+              | Some gs => if Nat.eqb (length gs) 8 then Some (groups_value gs) else None
+              | None => None
+              end
+          | (h, Some t) =>
+              (* the head may not end in a dotted quad *)
+              match (match h with [] => Some [] | _ => match v6_groups h with Some gs => if Nat.eqb (length gs) (length h) then Some gs else None | None => None end end),
+                    (match t with [] => Some [] | _ => v6_groups t end) with
+              | Some hg, Some tg =>
+                  if existsb (fun f => match f with [] => true | _ => false end) t then None
+                  else if Nat.leb (length hg + length tg) 7
+                  then Some (groups_value (hg ++ repeat 0 (8 - length hg - length tg) ++ tg))
+                  else None
+              | _, _ => None
+              end
+          end
+      end
+  end.
+
+(* ------------------------------------------------------------------ *)
+(* NLRI: IPv4 / IPv6 unicast prefixes and labeled prefixes               *)
+Inductive profile : Type := Debug | Release.
+
+Inductive nlri : Type :=
+| NV4 (addr mask : N)
+| NV6 (addr mask : N)
+| NLab4 (labels : list N) (addr mask : N)
+| NLab6 (labels : list N) (addr mask : N).
+
+Inductive api_nlri : Type :=
+| PMissing
+| PPrefix (s : list N) (len : N)
+| PLabeled (labels : list N) (s : list N) (len : N)
+| POther.
+
+Section Nlri.
+  Variable v6p : N -> list N.
+  Variable v6r : list N -> option N.
+
+  Definition nlri_to_api (n : nlri) : api_nlri :=
+    match n with
+    | NV4 a m => PPrefix (ip4_to_string a) m
+    | NV6 a m => PPrefix (v6p a) m
+    | NLab4 ls a m => PLabeled ls (ip4_to_string a) m
+    | NLab6 ls a m => PLabeled ls (v6p a) m
+    end.
+
+  Definition SLASH : N := 47.
+
+  (* Prefix: Nlri::from_str(format!("{}/{}", prefix, prefix_len)).  The formatted
+     string splits on '/' into exactly two parts iff the prefix holds no '/';
+     the decimal u32 parses as a u8 iff it is <= 255.
+     LabeledPrefix: address parsed alone; after the fix commit the length must be
+     within the family's width and the label stack must fit the one-octet NLRI
+     length (at least one label). *)
+  Definition net_from_api (x : api_nlri) : option nlri :=
+    match x with
+    | PPrefix s len =>
+        if existsb (fun c => c =? SLASH) s then None
+        else match ip4_of_string s with
+             | Some a => if 255 <? len then None else if 32 <? len then None else Some (NV4 a len)
+             | None =>
+                 match v6r s with
+                 | Some a => if 255 <? len then None else if 128 <? len then None else Some (NV6 a len)
+                 | None => None
+                 end
+             end
+    | PLabeled ls s len =>
+        match ip4_of_string s with
+        | Some a =>
+            if (32 <? len) || Nat.eqb (length ls) 0 || (255 <? 24 * N.of_nat (length ls) + len) then None
+            else Some (NLab4 (map (fun l => l mod 1048576) ls) a len)
+        | None =>
+            match v6r s with
+            | Some a =>
+                if (128 <? len) || Nat.eqb (length ls) 0 || (255 <? 24 * N.of_nat (length ls) + len) then None
+                else Some (NLab6 (map (fun l => l mod 1048576) ls) a len)
+            | None => None
+            end
+        end
+    | PMissing | POther => None
+    end.
+
+  (* before the fix: the length was truncated to a u8 and nothing was checked *)
+  Definition net_from_api_v0 (x : api_nlri) : option nlri :=
+    match x with
+    | PLabeled ls s len =>
+        match ip4_of_string s with
+        | Some a => Some (NLab4 (map (fun l => l mod 1048576) ls) a (len mod 256))
+        | None =>
+            match v6r s with
+            | Some a => Some (NLab6 (map (fun l => l mod 1048576) ls) a (len mod 256))
+            | None => None
+            end
+        end
+    | _ => net_from_api x
+    end.
+
+  (* Ipv4Net::encode / Ipv6Net::encode / LabeledV4Nlri::encode: the bytes, or a panic
+     (index past the address octets; u8 addition overflow in a debug build) *)
+  Definition addr_bytes (width : nat) (a : N) (mask : N) : res (list N) :=
+    let n := N.to_nat ((mask + 7) / 8) in
+    if Nat.leb n width then Ok (firstn n (to_bytes width a)) else Panic 5.
+
+  Fixpoint label_bytes (ls : list N) : list N :=
+    match ls with
+    | [] => []
+    | [l] => to_bytes 3 (l * 16 + 1)
+    | l :: r => to_bytes 3 (l * 16) ++ label_bytes r
+    end.
+
+  Definition encode_nlri (p : profile) (n : nlri) : res (list N) :=
+    match n with
+    | NV4 a m => b <- addr_bytes 4 a m ;; Ok (m :: b)
+    | NV6 a m => b <- addr_bytes 16 a m ;; Ok (m :: b)
+    | NLab4 ls a m | NLab6 ls a m =>
+        let width := match n with NLab4 _ _ _ => 4%nat | _ => 16%nat end in
+        let lb := (24 * N.of_nat (length ls)) mod 256 in
+        if (255 <? lb + m) && (match p with Debug => true | Release => false end) then Panic 7
+        else b <- addr_bytes width a m ;; Ok ((lb + m) mod 256 :: label_bytes ls ++ b)
+    end.
+End Nlri.
+
+Definition v_nlri (n : nlri) : val :=
+  match n with
+  | NV4 a m => VL [VI 4; VN a; VN m]
+  | NV6 a m => VL [VI 6; VNs (to_bytes 16 a); VN m]
+  | NLab4 ls a m => VL [VI 14; VNs ls; VN a; VN m]
+  | NLab6 ls a m => VL [VI 16; VNs ls; VNs (to_bytes 16 a); VN m]
+  end.
+
+Definition v_api_nlri (x : api_nlri) : val :=
+  match x with
+  | PMissing => VL [VI 0]
+  | PPrefix s l => VL [VI 1; VNs s; VN l]
+  | PLabeled ls s l => VL [VI 2; VNs ls; VNs s; VN l]
+  | POther => VL [VI 99]
+  end.
+
+Definition v_onlri (o : option nlri) : val :=
+  match o with Some n => VL [VI 1; v_nlri n] | None => VL [VI 0] end.
+
+(* kind 2: an API NLRI message; kind 3: an internal NLRI value *)
+Definition run_api_nlri_case (p : profile) (x : api_nlri) : val :=
+  match net_from_api v6_parse x with
+  | None => VL [VI 0]
+  | Some n => VL [VI 1; v_nlri n; v_res (fun b => VNs b) (encode_nlri p n)]
+  end.
+
+Definition run_nlri_case (n : nlri) : val :=
+  let x := nlri_to_api v6_print n in
+  VL [v_api_nlri x; v_onlri (net_from_api v6_parse x)].
 
 Definition run_wire_case := run_wire v6_print v6_parse.
 Definition run_api_case := run_api v6_print v6_parse.
